@@ -615,6 +615,64 @@ func c08HeavyVertex(w *core.WorkerCtx) {
 	}
 }
 
+// c08RetryExhaustion: an orphan whose parent never arrives uses up its retries (an error path of the orphan buffer);
+// afterwards every operation still completes: more orphans, proposals, reads, streaming.
+func c08RetryExhaustion(w *core.WorkerCtx) {
+	rng := core.Rand(w.Seed, "C08r", w.Batch)
+	desc := fmt.Sprintf("c08 orphan retry exhaustion seed=%d batch=%d", w.Seed, w.Batch)
+	w.Mark("%s", desc)
+	world := ledger.NewWorld(rng, w.R, []string{"C08"}, 0, desc)
+	_, err := ledger.Setup(world, ledger.Profile{Nodes: 1, Users: 4, SupplyClass: 0, Delivery: "lockstep"})
+	if err != nil {
+		w.R.Inconc("setup failed: " + err.Error())
+		return
+	}
+	e := &c08env{w: w, world: world, n: world.Nodes[0]}
+	for i := 0; i < 12 && !e.dead; i++ {
+		e.grow(false)
+	}
+	orphan := func(tag byte) accountant.Vertex {
+		var ghost ledger.H
+		ghost[0], ghost[1] = 0xEE, tag
+		t := world.NewTrx(world.Users[1], world.Users[2].Addr, spice.Melange{SupplementaryCurrency: uint64(tag) + 1}, nil)
+		return ledger.ForgeVertex(world.Sealers[0], t, ghost, ghost, 40, world.Now())
+	}
+	steps := 0
+	for round := 0; round < 3 && !e.dead; round++ {
+		o := orphan(byte(round))
+		e.watch("AddLeaf of an orphan", func() { e.n.Book.AddLeaf(context.Background(), ledger.CloneVertex(&o)) })
+		// until the buffer is empty again: the orphan has used up its retries and is gone
+		for k := 0; k < 30 && !e.dead; k++ {
+			// what the node's own ticker does every two seconds: 26 of these use up the orphan's retries
+			e.watch("retry step of the orphan buffer", func() { e.n.Book.VerifRetryOne(context.Background()) })
+			steps++
+		}
+		if !e.dead {
+			o2 := orphan(byte(100 + round))
+			e.watch("AddLeaf of the next orphan", func() { e.n.Book.AddLeaf(context.Background(), ledger.CloneVertex(&o2)) })
+		}
+		if e.dead {
+			break
+		}
+		e.grow(false)
+		e.watch("CalculateBalance after an orphan used up its retries", func() { e.n.Book.CalculateBalance(context.Background(), world.Users[1].Addr) })
+		if !e.dead {
+			e.watch("StreamDAG after an orphan used up its retries", func() {
+				ctx, cancel := context.WithCancel(context.Background())
+				defer cancel()
+				for range e.n.Book.StreamDAG(ctx) {
+				}
+			})
+		}
+	}
+	w.R.Eval(1)
+	w.R.Count("c08_retry_exhaustion_retry_steps", steps)
+	w.R.Nontriv(fmt.Sprintf("retry-exhaustion/wedged=%v", e.dead))
+	if !e.dead {
+		world.Close()
+	}
+}
+
 // c08AsyncCancel cancels real contexts from a timer goroutine at PRNG moments while operations run on a larger ledger.
 func c08AsyncCancel(w *core.WorkerCtx) {
 	rng := core.Rand(w.Seed, "C08a", w.Batch)
@@ -665,6 +723,7 @@ func c08Worker(w *core.WorkerCtx) {
 	case 3:
 		c08InternalExits(w)
 		c08HeavyVertex(w)
+		c08RetryExhaustion(w)
 		c08AsyncCancel(w)
 	}
 }
